@@ -296,6 +296,7 @@ class State(object):
         self._nside = 0
         from .reduce import Reductions
         self.reductions = Reductions(self)
+        self.lower = core.Lower(self.pc)      # shares the (growing) path condition list
 
     def fresh(self, prefix):
         return '%s!%d' % (prefix, next(self.ctr))
@@ -734,9 +735,18 @@ class Interp(object):
         raise Unsupported('call of %r' % (f,))
 
     def instantiate(self, cls, args, kwargs, fr):
-        cut = fr.st.cuts.get(cls.qualname + '.__new__$')
+        cut = None
+        if fr.st.cuts:
+            for k in cls.mro:
+                cut = fr.st.cuts.get('%s.__new__$' % getattr(k, 'qualname', None))
+                if cut is not None:
+                    break
         if cut is not None:
-            return cut(self, fr, cls, *args, **kwargs)
+            o = cut(self, fr, cls, *args, **kwargs)
+            c, e = cls.lookup('__init__')
+            if e is not None:
+                self.call(self.bind_entry(o, c, '__init__', e, fr), args, kwargs, fr)
+            return o
         c, e = cls.lookup('__new__')
         if e is not None:
             fv = self.class_entry_value(c, '__new__', e)
